@@ -67,6 +67,7 @@ def run_case(ctx, case):
                             rng.getrandbits(48) & 0x00FFFF00FFFF, 1, 0])
             ble.mac = v
             assigned = v.to_bytes(6, "little")
+            assigned_alt = v.to_bytes(6, "big")  # the byte order of an int is not documented
         elif mac_kind == "bytes6":
             assigned = bytes(rng.choice([0, rng.getrandbits(8)]) if rng.random() < 0.3 else rng.getrandbits(8)
                              for _ in range(6))
@@ -81,7 +82,7 @@ def run_case(ctx, case):
             ctx.violation("mac-length", "mac attribute has %d bytes after assigning a %s value"
                           % (len(mac), mac_kind), case)
             return
-        if assigned is not None and mac[:len(assigned)] != assigned:
+        if assigned is not None and mac[:len(assigned)] != assigned and not (mac_kind == "int" and mac == assigned_alt):
             ctx.violation("mac-not-as-assigned", "mac assigned as %s %s reads back as %s"
                           % (mac_kind, assigned.hex(), mac.hex()), case)
             return
